@@ -524,6 +524,7 @@ package dbft
 //@   requires [C03] @said said()
 //@   ensures [C03] @said said()
 //@   ensures [C03] @lock implies(old(gPreCommit) != nil, gPreCommit == old(gPreCommit))
+//@   ensures gBroadcasts >= old(gBroadcasts)
 //@   modifies Context.PreCommitPayloads, Context.preBlock, Context.preHeader, gBroadcasts, gLastBcast, gPreCommit, gMaxOwnView
 //@ func (*DBFT).sendCommit
 //@   requires wf() && slot() && verc()
@@ -536,6 +537,7 @@ package dbft
 //@   requires [C03] @said said()
 //@   ensures [C03] @said said()
 //@   ensures [C03] @lock implies(old(gCommit) != nil, gCommit == old(gCommit))
+//@   ensures gBroadcasts >= old(gBroadcasts)
 //@   modifies Context.CommitPayloads, Context.header, gBroadcasts, gLastBcast, gCommit, gMaxOwnView
 //@ func (*Context).makeCommit
 //@   inline
@@ -629,22 +631,22 @@ package dbft
 //@   ensures implies(view > 0, sameHeight())
 //@   ensures @heap heapMono()
 //@   ensures [C10] @timer implies(aview(), timerOK())
-//@   ensures @arms gTimerArms >= old(gTimerArms)
+//@   ensures @arms gTimerArms >= old(gTimerArms) && gBroadcasts >= old(gBroadcasts)
 //@   ensures [C05] @cachePurged implies(view == 0, cachePurged())
 //@   ensures [C05] @cacheKeptPurged implies(old(cachePurged()), cachePurged())
 //@   ensures [C03] @freshStart implies(old(forall(h, !has(self.cache.mail, h))), forall(i, 0, NN(), self.PreparationPayloads[i] == nil && self.CommitPayloads[i] == nil && self.PreCommitPayloads[i] == nil) || view > 0)
 //@   ensures [C05] @freshStartView implies(old(forall(h, !has(self.cache.mail, h))) && view == 0, self.ViewNumber == 0 && !self.blockProcessed)
 //@   loop 1: use INV
-//@   loop 1: invariant self.ViewNumber >= view && implies(view > 0, sameHeight()) && heapMono() && inboxOK(msgs) && gTimerArms >= old(gTimerArms)
+//@   loop 1: invariant self.ViewNumber >= view && implies(view > 0, sameHeight()) && heapMono() && inboxOK(msgs) && gTimerArms >= old(gTimerArms) && gBroadcasts >= old(gBroadcasts)
 //@   loop 1: invariant [C05] @cachePurged implies(view == 0, cachePurged()) && implies(old(cachePurged()), cachePurged())
 //@   loop 2: use INV
-//@   loop 2: invariant self.ViewNumber >= view && implies(view > 0, sameHeight()) && heapMono() && inboxOK(msgs) && gTimerArms >= old(gTimerArms)
+//@   loop 2: invariant self.ViewNumber >= view && implies(view > 0, sameHeight()) && heapMono() && inboxOK(msgs) && gTimerArms >= old(gTimerArms) && gBroadcasts >= old(gBroadcasts)
 //@   loop 2: invariant [C05] @cachePurged implies(view == 0, cachePurged()) && implies(old(cachePurged()), cachePurged())
 //@   loop 3: use INV
-//@   loop 3: invariant self.ViewNumber >= view && implies(view > 0, sameHeight()) && heapMono() && inboxOK(msgs) && gTimerArms >= old(gTimerArms)
+//@   loop 3: invariant self.ViewNumber >= view && implies(view > 0, sameHeight()) && heapMono() && inboxOK(msgs) && gTimerArms >= old(gTimerArms) && gBroadcasts >= old(gBroadcasts)
 //@   loop 3: invariant [C05] @cachePurged implies(view == 0, cachePurged()) && implies(old(cachePurged()), cachePurged())
 //@   loop 4: use INV
-//@   loop 4: invariant self.ViewNumber >= view && implies(view > 0, sameHeight()) && heapMono() && inboxOK(msgs) && gTimerArms >= old(gTimerArms)
+//@   loop 4: invariant self.ViewNumber >= view && implies(view > 0, sameHeight()) && heapMono() && inboxOK(msgs) && gTimerArms >= old(gTimerArms) && gBroadcasts >= old(gBroadcasts)
 //@   loop 4: invariant [C05] @cachePurged implies(view == 0, cachePurged()) && implies(old(cachePurged()), cachePurged())
 //@   wraps d.ViewNumber+1 unless aview()
 //@   wraps d.timePerBlock<<(d.ViewNumber+1) unless aview()
